@@ -571,22 +571,36 @@ func sessionFieldRule(c *Ctx, r *Report, rule string) {
 						if !ok || !strings.HasPrefix(callName(&call.Call), "sync/atomic.") || len(call.Call.Args) == 0 {
 							return false
 						}
-						// the object loaded from: a free variable bound to a local of the spawner is fine
-						root := call.Call.Args[0]
-						for {
+						// the object loaded from: a free variable bound to a local of the spawner is fine,
+						// unless that local is itself a pointer into the session
+						var walk func(root ssa.Value, depth int)
+						walk = func(root ssa.Value, depth int) {
+							if depth > 8 {
+								return
+							}
 							switch y := root.(type) {
 							case *ssa.FieldAddr:
 								if isSessionPtr(y.X.Type()) {
 									bad = "Session." + fieldName(y)
 								}
-								root = y.X
-								continue
+								walk(y.X, depth+1)
 							case *ssa.UnOp:
-								root = y.X
-								continue
+								walk(y.X, depth+1)
+							case *ssa.FreeVar:
+								for i, fv := range cf.FreeVars {
+									if fv == y && i < len(mc.Bindings) {
+										walk(mc.Bindings[i], depth+1)
+									}
+								}
+							case *ssa.Alloc:
+								for _, ref := range *y.Referrers() {
+									if st, ok := ref.(*ssa.Store); ok && st.Addr == ssa.Value(y) {
+										walk(st.Val, depth+1)
+									}
+								}
 							}
-							break
 						}
+						walk(call.Call.Args[0], 0)
 						return false
 					})
 					if bad != "" {
